@@ -10,7 +10,9 @@ RULE = ('histories: corpus + seeded random action lists (3-6 users, 1-3 channels
         'EXTRACTED reference server (coq/C10/Spec.v) to obtain the messages a conformant server sends to the bot; the messages are fed '
         'to the real irclib.Irc.feedMsg and to the extracted bot model; (irc.nick, irc.prefix, state.channels, state.nicksToHostmasks) '
         'is dumped after EVERY message and diffed model vs implementation with exact spellings; after every action the implementation '
-        'dump is compared under IRC case folding with the reference server\'s view (direct oracle).  A second, hostile stream feeds raw '
+        'dump is compared under IRC case folding with the reference server\'s view (direct oracle).  A failure records every differing aspect (nick, channel list, users, ops, halfops, voices, bans, topic, modes, created, hostmask); '
+        'it is attributed to a recorded finding only when EVERY differing aspect is that finding\'s own (F10: hostmask entry of a case-renamed nick missing; '
+        'F10b: hostmask replaced by the bare nick after a userhost-in-names NAMES; F10c: mode parameter differing exactly by int() coercion); the run continues past such steps.   A second, hostile stream feeds raw '
         'messages of the anchored commands with wrong arity / unknown channels / odd prefixes (correspondence + self-leave oracle). '
         'non-trivial = distinct history with at least one emitted message')
 TRUSTED = ['Irc.feedMsg is driven with ircmsgs.IrcMsg(prefix=, command=, args=) objects, a stub driver and no callbacks loaded; '
@@ -121,12 +123,14 @@ def impl_feed(irc, m):
 
 
 # ---------------------------------------------------------------- direct oracle: implementation dump vs server view
-def view_mismatch(dump, view, multiprefix=True):
+def view_diffs(dump, view, multiprefix=True):
     """the property text: channels the bot is in, members, op/halfop/voice, topic, modes, bans, hostmask of each
-    visible nick equal the server's, names compared under IRC case rules.  returns None or a description"""
+    visible nick equal the server's, names compared under IRC case rules.  returns the list of ALL differing aspects,
+    each {'aspect': nick|channels|users|ops|halfops|voices|bans|topic|modes|created|hostmask, 'chan', 'key', 'bot', 'server'}"""
     lo = _st['ircutils'].toLower
+    out = []
     if dump[0] != view[0]:
-        return 'bot nick %r, server says %r' % (dump[0], view[0])
+        out.append({'aspect': 'nick', 'chan': None, 'key': None, 'bot': dump[0], 'server': view[0]})
     bot = {}
     for c in dump[2]:
         bot[lo(c[0])] = c
@@ -134,28 +138,35 @@ def view_mismatch(dump, view, multiprefix=True):
     for c in view[1]:
         srv[lo(c[0])] = c
     if set(bot) != set(srv):
-        return 'bot is in %r, server says %r' % (sorted(bot), sorted(srv))
-    for k in sorted(srv):
+        out.append({'aspect': 'channels', 'chan': None, 'key': None, 'bot': sorted(bot), 'server': sorted(srv)})
+    for k in sorted(set(srv) & set(bot)):
         b, s = bot[k], srv[k]
         for i, what in ((1, 'users'), (2, 'ops'), (3, 'halfops'), (4, 'voices'), (5, 'bans')):
             bs, ss = set(map(lo, b[i])), set(map(lo, s[i]))
             # without multi-prefix a NAMES reply shows only a member's highest prefix: the lower flags of a member
             # the bot only knows from NAMES are not disclosed, so only "nothing invented" can be demanded for them
             if (bs != ss) if (multiprefix or i < 3) else (not bs <= ss):
-                return '%s %s: bot %r, server %r' % (k, what, sorted(b[i]), sorted(s[i]))
+                out.append({'aspect': what, 'chan': k, 'key': sorted(bs ^ ss), 'bot': sorted(b[i]), 'server': sorted(s[i])})
         if b[6] != s[6]:
-            return '%s topic: bot %r, server %r' % (k, b[6], s[6])
-        bm = dict((m, None if v is None else str(v[1])) for m, v in b[7])
-        sm = dict((m, v) for m, v in s[7])
-        if bm != sm:
-            return '%s modes: bot %r, server %r' % (k, bm, sm)
+            out.append({'aspect': 'topic', 'chan': k, 'key': None, 'bot': b[6], 'server': s[6]})
+        bm = dict((m, [None if v is None else str(v[1])]) for m, v in b[7])
+        sm = dict((m, [v]) for m, v in s[7])
+        for m in sorted(set(bm) | set(sm)):
+            if bm.get(m) != sm.get(m):      # [x] = set with value x, None = letter not set
+                out.append({'aspect': 'modes', 'chan': k, 'key': m, 'bot': bm.get(m), 'server': sm.get(m)})
         if b[8] != s[8]:
-            return '%s created: bot %r, server %r' % (k, b[8], s[8])
+            out.append({'aspect': 'created', 'chan': k, 'key': None, 'bot': b[8], 'server': s[8]})
     n2h = dict((lo(k), v) for k, v in dump[3])
     for nick, hm in view[2]:
         if n2h.get(lo(nick)) != hm:
-            return 'hostmask of visible nick %r: bot %r, server %r' % (nick, n2h.get(lo(nick)), hm)
-    return None
+            out.append({'aspect': 'hostmask', 'chan': None, 'key': nick, 'bot': n2h.get(lo(nick)), 'server': hm})
+    return out
+
+
+def describe(diffs):
+    return '; '.join('%s%s%s: bot %r, server %r' % (d['aspect'], ' of ' + d['chan'] if d['chan'] else '',
+                                                  ' [%s]' % (d['key'],) if d['key'] is not None else '', d['bot'], d['server'])
+                     for d in diffs[:4]) + (' (+%d more)' % (len(diffs) - 4) if len(diffs) > 4 else '')
 
 
 # ---------------------------------------------------------------- actions
@@ -278,30 +289,48 @@ def triggers(inp):
     return t
 
 
-def neutralise(inp, which):
-    """the same history with the triggers of one finding class removed"""
+def excuse(d, acts):
+    """which recorded finding (if any) explains ONE differing aspect, given the history so far.  Deliberately narrow:
+    F10  = the hostmask of a nick that went through a case-only NICK is forgotten (bot has no entry);
+    F10b = the hostmask of a nick is replaced by the bare nick after a userhost-in-names NAMES reply;
+    F10c = a mode parameter differs from the server's exactly by int() coercion.
+    Anything else (membership, ops/halfops/voices, bans, topic, channel list, nick, other hostmask errors) is never excused."""
     lo = _st['ircutils'].toLower
-    acts = []
-    for a in inp['acts']:
-        if which == 'casenick' and a[0] == 'nick' and lo(a[1]) == lo(a[2]):
-            continue
-        if which == 'uhnames' and a[0] == 'names':
-            a = a[:3] + [False]
-        if which == 'intarg' and a[0] == 'mode':
-            a = a[:3] + [[[p, f, (str(int(arg)) if _int_noncanon(arg) else arg)] for p, f, arg in a[3]]]
-        acts.append(a)
-    return {'op': 'hist', 'mp': inp['mp'], 'uh': inp['uh'], 'acts': acts}
+    if d['aspect'] == 'hostmask':
+        if d['bot'] is None and any(a[0] == 'nick' and lo(a[1]) == lo(a[2]) and lo(a[2]) == lo(d['key']) for a in acts):
+            return 'casenick'
+        if isinstance(d['bot'], str) and '!' not in d['bot'] and lo(d['bot']) == lo(d['key']) \
+                and any(a[0] == 'names' and a[3] for a in acts):
+            return 'uhnames'
+        return None
+    if d['aspect'] == 'modes' and d['bot'] and d['server'] and d['bot'][0] is not None and d['server'][0] is not None:
+        sv = d['server'][0]
+        if _int_noncanon(sv) and str(int(sv)) == d['bot'][0] \
+                and any(a[0] == 'mode' and any(arg == sv for _, f, arg in a[3]) for a in acts):
+            return 'intarg'
+    return None
+
+
+def excuses(diffs, acts):
+    """set of finding classes that together explain every differing aspect, or None if some aspect is unexplained"""
+    ex = [excuse(d, acts) for d in diffs]
+    return None if (not ex or None in ex) else set(ex)
 
 
 def _class(which):
     def pred(inp):
-        if inp.get('op') != 'hist' or which not in triggers(inp):
+        if inp.get('op') != 'hist':
             return False
-        # attribute the failure to this class only if it disappears once the class's triggers are removed
-        import lib.modelproc as mp
-        fixed = neutralise(inp, which)
-        out = mp.run('C10', [hist_wire(fixed)])[0]
-        return run_history(None, fixed, out, record=False) is None
+        diffs = inp.get('diff')
+        if diffs is None:       # a bare witness: recompute the differing aspects on the implementation
+            recs = history_failures(inp)
+            if not recs:
+                return False
+            diffs, acts = recs[0]['diff'], inp['acts'][:recs[0]['step'] + 1]
+        else:
+            acts = inp['acts']
+        ex = excuses(diffs, acts)
+        return ex is not None and which in ex
     return pred
 
 
@@ -311,18 +340,21 @@ CLASSES = {'case_only_nick': _class('casenick'), 'uhnames_names': _class('uhname
 # ---------------------------------------------------------------- running one history
 def run_history(ctx, inp, out, record=True, stored=None):
     """feed the server's messages to a fresh Irc; diff against the model after every message, against the view after
-    every action.  returns the first oracle failure (detail) or None."""
+    every action.  returns the list of oracle failures, one per action after which the view differs:
+    {'step', 'diff' (all differing aspects), 'detail', 'steps'}.  The run continues past a step whose differences are all
+    explained by recorded findings (so that those cannot mask anything later) and stops at the first unexplained one."""
     _env()
     irc = new_irc()
     steps = stored if stored is not None else [[[dec_msg(m) for m in st[0]], st[1], dec_view(st[2])] for st in out]
     nmsg = 0
     diverged = False
+    recs = []
     for i, (msgs, dumps, view) in enumerate(steps):
         for j, m in enumerate(msgs):
             if not impl_feed(irc, m):
                 if ctx is not None and record:
                     ctx.disagree(inp, 'message', m, 'reference server emitted a message IrcMsg() refuses')
-                return None
+                return recs
             nmsg += 1
             d = impl_dump(irc)
             if ctx is not None and record and dumps is not None and not diverged:
@@ -332,12 +364,32 @@ def run_history(ctx, inp, out, record=True, stored=None):
                                  'dump after message %r' % (m,))
                     diverged = True      # keep going: the direct oracle must still get its say
         mp_all = bool(inp['mp']) and all(a[2] for a in inp['acts'][:i + 1] if a[0] == 'names')
-        bad = view_mismatch(impl_dump(irc), view, mp_all)
-        if bad:
-            return {'step': i, 'detail': 'after action %d %r: %s' % (i, inp['acts'][i], bad),
-                    'steps': [[ms, None, v] for ms, _, v in steps[:i + 1]]}
-    if ctx is not None and record:
+        diffs = view_diffs(impl_dump(irc), view, mp_all)
+        if diffs:
+            recs.append({'step': i, 'diff': diffs,
+                         'detail': 'after action %d %r: %s' % (i, inp['acts'][i], describe(diffs)),
+                         'aspects': sorted(set(x['aspect'] for x in diffs)),
+                         'steps': [[ms, None, v] for ms, _, v in steps[:i + 1]]})
+            if excuses(diffs, inp['acts'][:i + 1]) is None:
+                break
+    if ctx is not None and record and not recs:
         ctx.case('history' + ('-trig' if triggers(inp) else ''), inp, nontrivial=nmsg > 0)
+    return recs
+
+
+def history_failures(inp):
+    """re-run one history on the implementation from the input alone"""
+    if inp.get('steps') is not None:
+        return run_history(None, inp, None, record=False, stored=inp['steps'])
+    import lib.modelproc as mp
+    out = mp.run('C10', [hist_wire(inp)])[0]
+    return run_history(None, inp, out, record=False)
+
+
+def unexplained(recs, acts):
+    for r in recs:
+        if excuses(r['diff'], acts[:r['step'] + 1]) is None:
+            return r
     return None
 
 
@@ -346,10 +398,18 @@ def check_histories(ctx, hs):
     for h, out in zip(hs, outs):
         if out is None:
             continue
-        f = run_history(ctx, h, out)
-        if f:
+        recs = run_history(ctx, h, out)
+        if recs:
             ctx.case('history-failing', h)
-            small = {'op': 'hist', 'mp': h['mp'], 'uh': h['uh'], 'acts': h['acts'][:f['step'] + 1], 'steps': f['steps']}
+        reported = set()
+        for f in recs:
+            ex = excuses(f['diff'], h['acts'][:f['step'] + 1])
+            key = 'unexplained' if ex is None else tuple(sorted(ex))
+            if key in reported:
+                continue            # one report per history and per explanation
+            reported.add(key)
+            small = {'op': 'hist', 'mp': h['mp'], 'uh': h['uh'], 'acts': h['acts'][:f['step'] + 1], 'steps': f['steps'],
+                     'diff': f['diff'], 'aspects': f['aspects']}
             ctx.fail(small, f['detail'])
 
 
@@ -555,14 +615,13 @@ def run(ctx):
 def replay(ctx, inp):
     _env()
     if inp.get('op') == 'hist':
-        stored = inp.get('steps')
-        if stored is None:
-            import lib.modelproc as mp
-            out = mp.run('C10', [hist_wire(inp)])[0]
-            f = run_history(None, inp, out, record=False)
-        else:
-            f = run_history(None, inp, None, record=False, stored=stored)
-        return f['detail'] if f else None
+        recs = history_failures(inp)
+        if not recs:
+            return None
+        f = unexplained(recs, inp['acts'])
+        if f is None and inp.get('diff') is not None and excuses(inp['diff'], inp['acts']) is None:
+            return None     # recorded as an unexplained failure: only an unexplained failure reproduces it
+        return (f or recs[0])['detail']
     if inp.get('op') == 'raw':
         f = run_raw(None, inp, None, record=False)
         return f['detail'] if f else None
@@ -571,19 +630,18 @@ def replay(ctx, inp):
 
 def shrink(ctx, inp):
     if inp.get('op') == 'hist':
-        import lib.modelproc as mp
+        want = set(inp.get('aspects') or [])
 
-        def fails(acts):
+        def bad(acts):
             h = {'op': 'hist', 'mp': inp['mp'], 'uh': inp['uh'], 'acts': list(acts)}
-            out = mp.run('C10', [hist_wire(h)])[0]
-            return run_history(None, h, out, record=False) is not None
-        acts = shrink_seq(inp['acts'], fails, budget=150)
-        h = {'op': 'hist', 'mp': inp['mp'], 'uh': inp['uh'], 'acts': list(acts)}
-        out = mp.run('C10', [hist_wire(h)])[0]
-        f = run_history(None, h, out, record=False)
+            f = unexplained(history_failures(h), h['acts'])
+            # keep the same kind of failure: an unexplained difference sharing an aspect with the original
+            return f if (f and (not want or want & set(f['aspects']))) else None
+        acts = shrink_seq(inp['acts'], lambda a: bad(a) is not None, budget=150)
+        f = bad(acts)
         if f:
-            h['steps'] = f['steps']
-            return h
+            return {'op': 'hist', 'mp': inp['mp'], 'uh': inp['uh'], 'acts': list(acts)[:f['step'] + 1], 'steps': f['steps'],
+                    'diff': f['diff'], 'aspects': f['aspects']}
         return inp
     if inp.get('op') == 'raw':
         msgs = shrink_seq(inp['msgs'], lambda ms: run_raw(None, {'op': 'raw', 'msgs': list(ms)}, None, record=False) is not None, budget=150)
